@@ -16,6 +16,8 @@ Why(e) ==
          ELSE IF Undisturbed /\ Count(srv, e.tok[1]) >= 1 THEN "C19:queued-request-delivered-twice"
          ELSE IF Undisturbed /\ e.tok[1] # Len(srv) + 1 THEN "C19:queued-requests-delivered-out-of-order"
          ELSE ""
+    [] e.e = "Warm" ->           \* an earlier session that named a server the table has, with that entry's key (not traced in detail)
+         IF e.answered THEN "" ELSE "C19:session-with-the-named-servers-key-did-not-complete"
     [] e.e = "Resp" ->
          IF ~Match(cfg) THEN "C19:response-delivered-to-the-client-handler-without-an-authenticated-handshake"
          ELSE IF Count(resp, e.tok[1]) >= 1 THEN "C19:response-delivered-twice"
